@@ -81,8 +81,124 @@ def select_targets():
     return ts
 
 
+
+# ------------------------------------------------------------------------------------------ flatten / targets iterators
+DEN_H = 'specs/C18/fn_dense2.h'
+DEN_TYPES = [(r'^nano::targets_iterator_t$', 'struct nv_ftiter'), (r'^nano::flatten_iterator_t$', 'struct nv_ffiter'),
+             (r'^std::vector<nano::tensor_t<nano::tensor_vector_storage_t, double, [24]>', 'struct nv_dbufs'),
+             (r'^(nano::)?tensor[24]d_t$|^(nano::)?tensor_t<nano::tensor_vector_storage_t, double, [24]>$|::value_type$', 'struct nv_dbuf'),
+             (r'^(nano::)?tensor[24]d_c?map_t$|^(nano::)?tensor_t<nano::tensor_(c|m)array_storage_t, double, [24]>$', 'struct nv_dview'),
+             (r'^(nano::)?indices_t$|^(nano::)?tensor_t<nano::tensor_vector_storage_t, long, 1>$', 'struct nv_idx'),
+             (r'^(nano::)?indices_c?map_t$|^(nano::)?tensor_t<nano::tensor_(c|m)array_storage_t, long, 1>$|^(nano::)?tensor_c?map_t<long, 1', 'struct nv_slice'),
+             (r'^(nano::)?scalar_stats_t$', 'struct nv_stats'), (r'^(nano::)?scaling_type$', 'int32_t'), (r'^(nano::)?tensor_range_t$', 'struct nv_range'),
+             (r'^nano::dataset_t$', 'struct nv_fdataset'), (r'^std::function<|_callback_t$', 'struct nv_cb')]
+
+
+def cache_store_hook(P, n):
+    """`m_flatten.slice(range) = <values>` (cache_flatten / cache_targets): nv_cache_store(&self->m_flatten, range, values)"""
+    from cxx2c import unwrap
+    if n.get('kind') != 'CXXOperatorCallExpr' or len(n.get('inner', [])) != 3:
+        return None
+    if unwrap(n['inner'][0]).get('referencedDecl', {}).get('name') != 'operator=':
+        return None
+    lhs = unwrap(n['inner'][1])
+    if lhs.get('kind') != 'CXXMemberCallExpr' or lhs['inner'][0].get('name') != 'slice':
+        return None
+    obj = unwrap(lhs['inner'][0]['inner'][0])
+    if obj.get('kind') != 'MemberExpr' or obj.get('name') not in ('m_flatten', 'm_targets'):
+        return None
+    P.note('cache.slice(range) = values -> nv_cache_store')
+    return f'nv_cache_store({P.addr(obj)}, {P.expr(lhs["inner"][1])}, {P.expr(n["inner"][2])})'
+
+
+def dense_targets():
+    bases = {'nano::base_dataset_iterator_t': IFLT, 'nano::targets_iterator_t': IFLT}
+    ptr = [(r'^nano::dataset_t$', 'struct nv_fdataset')]
+    lay = frame.Layout([dict(tu=ITU, cls='nano::targets_iterator_t', cname='struct nv_ftiter', flt=IFLT, bases=bases, ptr=ptr),
+                        dict(tu=ITU, cls='nano::flatten_iterator_t', cname='struct nv_ffiter', flt=IFLT, bases=bases, ptr=ptr)],
+                       types=DEN_TYPES, base_tu=ITU)
+
+    def pre():
+        text, info = lay.text()
+        return f'#include "{astload.VERIF}/specs/C18/fn_dense.h"\n' + text, info
+    DENSE = r'(nano::tensor[24]d_t|nano::tensor_t<nano::tensor_vector_storage_t, double, [24]>|nano::tensor_base_t<double, [24])'
+    common = lambda st: dict(
+        types=DEN_TYPES, uf_float=False, self_struct=st, hooks=[cache_store_hook],
+        calls=[(r'^operator\[\]\|.*\|std::vector<nano::tensor_t<nano::tensor_vector_storage_t, double', '(*nv_dbuf_at({&0}, {1}))'),
+               (r'^make_range\|', 'nv_make_range({0}, {1})'),
+               (r'^operator\(\)\|.*\|(const )?std::function<.*#4$', 'nv_dcb3({&0}, {1}, {2}, {3})'),
+               (r'^operator\(\)\|.*\|(const )?std::function<.*#5$', 'nv_dcb4({&0}, {1}, {2}, {3}, {4})'),
+               (r'^ctor\|nano::tensor_t<nano::tensor_carray_storage_t, (double, [24]|long, 1)>\|void \((const )?tensor_t<nano::tensor_marray_storage_t', '{0}')],
+        members=[(r'^dataset\|nano::base_dataset_iterator_t', '(*{self}->m_dataset)'),
+                 (r'^(flatten|targets)\|nano::dataset_t\|#2', 'nv_ds_dense({self}, {0}, {&1})'),
+                 (r'^samples\|nano::targets_iterator_t', '{self}->m_samples'), (r'^scaling\|nano::targets_iterator_t', '{self}->m_scaling'),
+                 (r'^batch\|nano::targets_iterator_t', '{self}->m_batch'),
+                 (r'^slice\|(nano::indices_t|nano::tensor_t<nano::tensor_vector_storage_t, long, 1>)\|#1', 'nv_slice_of({self}, {0})'),
+                 (r'^slice\|' + DENSE + r'.*\|#1', 'nv_cache_slice({self}, {0}, self->m_samples.id)'),
+                 (r'^size\|nano::tensor_base_t<double, [24]', '@nondet'), (r'^size\|nano::tensor_base_t<long, 1', '__CPROVER_uninterpreted_idxsize({self}->id)'),
+                 (r'^scale\|nano::scalar_stats_t', 'nv_stats_scale({self}, &({1}))'),
+                 (r'^targets\|nano::targets_iterator_t \*\|#1', 'ffn_targets_map((struct nv_ftiter*){self}, {0})'),
+                 (r'^targets\|nano::targets_iterator_t \*\|#2', 'ffn_targets((struct nv_ftiter*){self}, {0}, {&1})'),
+                 (r'^flatten\|nano::flatten_iterator_t \*\|#1', 'ffn_flatten_map({self}, {0})'),
+                 (r'^flatten\|nano::flatten_iterator_t \*\|#2', 'ffn_flatten({self}, {0}, {&1})'),
+                 (r'^map\|nano::base_dataset_iterator_t \*\|#3', 'nv_iter_map({self}, {0}, {1})')])
+    np_ = lambda k: (lambda d: len(astload.param_types(d)) == k)
+    both = lambda a, b: (lambda d: a(d) and b(d))
+    tmap = lambda: Fn('ffn_targets_map', ITU, 'targets', flt=IFLT, select=both(mg('targets_iterator_t7targets'), np_(1)), **common('struct nv_ftiter'))
+    tget = lambda: Fn('ffn_targets', ITU, 'targets', flt=IFLT, select=both(mg('targets_iterator_t7targets'), np_(2)), **common('struct nv_ftiter'))
+    fmap = lambda: Fn('ffn_flatten_map', ITU, 'flatten', flt=IFLT, select=both(mg('flatten_iterator_t7flatten'), np_(1)), **common('struct nv_ffiter'))
+    fget = lambda: Fn('ffn_flatten', ITU, 'flatten', flt=IFLT, select=both(mg('flatten_iterator_t7flatten'), np_(2)), **common('struct nv_ffiter'))
+    ts = [T('ffn_targets', [tget(), tmap()], DEN_H, pre=pre), T('ffn_targets_map', [tmap()], DEN_H, pre=pre),
+          T('ffn_flatten', [fget(), fmap()], DEN_H, pre=pre), T('ffn_flatten_map', [fmap()], DEN_H, pre=pre)]
+    loops = [('ffn_loop_ft', both(mg('flatten_iterator_t4loop'), lambda d: 'flatten_targets_callback_t' in astload.param_types(d)[0]), 'struct nv_ffiter'),
+             ('ffn_loop_f', both(mg('flatten_iterator_t4loop'), lambda d: 'flatten_callback_t' in astload.param_types(d)[0]), 'struct nv_ffiter'),
+             ('ffn_loop_t', mg('targets_iterator_t4loop'), 'struct nv_ftiter')]
+    for cname, sel, st in loops:
+        deps = [tget(), tmap()] + ([fget(), fmap()] if st == 'struct nv_ffiter' else [])
+        ts.append(T(cname + '_task', [Fn(cname + '_task', ITU, 'loop', flt=IFLT, select=sel, lambda_index=0, captures=True, **common(st))] + deps, DEN_H, pre=pre))
+        ts.append(T(cname, [Fn(cname, ITU, 'loop', flt=IFLT, select=sel, **common(st))], DEN_H, pre=pre))
+    ts.append(T('fcache_flatten_task', [Fn('fcache_flatten_task', ITU, 'cache_flatten', flt=IFLT, lambda_index=0, captures=True, **common('struct nv_ffiter')), fget(), fmap()], DEN_H, pre=pre))
+    ts.append(T('fcache_targets_task', [Fn('fcache_targets_task', ITU, 'cache_targets', flt=IFLT, lambda_index=0, captures=True, **common('struct nv_ftiter')), tget(), tmap()], DEN_H, pre=pre))
+    return ts
+
+
+# ------------------------------------------------------------------------------------------ weak-learner fit operators
+FIT_H = 'specs/C18/fn_fit2.h'
+
+
+def fit_targets():
+    ts = []
+    for name, tu, cls in (('affine', 'src/wlearner/affine.cpp', 'nano::affine_wlearner_t'), ('stump', 'src/wlearner/stump.cpp', 'nano::stump_wlearner_t'),
+                          ('hinge', 'src/wlearner/hinge.cpp', 'nano::hinge_wlearner_t')):
+        types = [(r'^std::vector<(\(anonymous namespace\)::)?cache_t', 'struct nv_caches'), (r'^(\(anonymous namespace\)::)?cache_t$|__alloc_traits<std::allocator<\(anonymous namespace\)::cache_t>.*::value_type$', 'struct nv_cache'),
+                 (r'^nano::wlearner_criterion$', 'int32_t'), (r'^nano::hinge_type$', 'int32_t'), (r'^nano::\w+_wlearner_t$', 'struct nv_wlo'),
+                 (r'^std::tuple<double, double>$', 'struct nv_tuple_f64_f64'), (r'std::tuple_element<[01], (const )?std::tuple<double, double>>::type', 'double')]
+        if name == 'affine':
+            types = types + [(r'^nano::wlearner::accumulator_t$', 'struct nv_cache')]
+        erased = frame.ERASED + [r'^std::vector<std::pair<', r'::value_type$'] + ([] if name == 'affine' else [r'^(nano::wlearner::)?accumulator_t$'])
+        lay = frame.Layout([dict(tu=tu, cls='(anonymous namespace)::cache_t', flt='cache_t', cname='struct nv_cache',
+                                 bases={'nano::wlearner::accumulator_t': None, 'accumulator_t': None})], types=types, base_tu=tu)
+
+        def pre(lay=lay):
+            text, info = lay.text()
+            return f'#include "{astload.VERIF}/specs/C18/fn_fit.h"\nstruct nv_wlo {{ char unused; }};\nstruct nv_tuple_f64_f64 {{ double _0, _1; }};\n' + text, info
+        track = frame.make_track()
+        f = Fn(f'ffit_{name}', tu, 'do_fit', flt=cls, lambda_index=0, captures=True, self_struct='struct nv_wlo', types=types, opaque=erased,
+               hooks=[track.field_hook, track.expr_hook], stmt_hooks=[track.stmt_hook], aggregates=['struct nv_tuple_f64_f64'],
+               calls=[(r'^operator\[\]\|[^|]*\|std::vector<(\(anonymous namespace\)::)?cache_t', '(*nv_cache_at({&0}, {1}))'),
+                      (r'^isfinite\|', 'nv_isfinite({0})')],
+               members=[(r'^clear\|\(anonymous namespace\)::cache_t\|#3', 'nv_cache_clear3({self})'),
+                        (r'^score(_neg|_pos)?\|\(anonymous namespace\)::cache_t', 'nv_cache_score({self})')] +
+               # affine: cache_t IS an accumulator_t (base class): clear(bins) / update(.., bin) are calls on the cache itself
+               ([(r'^clear\|nano::wlearner::accumulator_t\|#1', 'nv_cache_acc1((struct nv_cache*){self}, {0})'),
+                 (r'^update\|nano::wlearner::accumulator_t\|#2', 'nv_cache_acc1((struct nv_cache*){self}, {0})'),
+                 (r'^update\|nano::wlearner::accumulator_t\|#3', 'nv_cache_acc2((struct nv_cache*){self}, {0}, {1})')] if name == 'affine' else []))
+        ts.append(T(f'ffit_{name}', [f], FIT_H, pre=pre, enums=[(tu, 'nano::hinge_type')] if name == 'hinge' else []))
+    return ts
+
+
 def targets():
-    return select_targets()
+    return select_targets() + dense_targets() + fit_targets()
 
 
 DECIDED = [
